@@ -185,4 +185,163 @@ theorem poolUpdateRecord_upd {w : World} {pl : Nat} {v : PView} (hv : poolView w
     · exact hsum
     · rw [hamt', HashHeap.amountOf_of_not_mem hk]; simp
 
+/-- `reset_holder`, as a state equation -/
+theorem setHeldAmount_present {w : World} {pl : Nat} {x : Pool} (hx : w.pools[pl]? = some x) {p : Pid} {i : Nat}
+    (hfi : HashHeap.findIndex x.holders (p + 1) = .ok i) (hi0 : i ≠ 0) (a : Nat) :
+    setHeldAmount w pl p a =
+      { w with pools := w.pools.set! pl { x with holders := (HashHeap.withItem x.holders i
+          ⟨(x.holders.tag i).item.a, a, (x.holders.tag i).item.c, (x.holders.tag i).item.d⟩) } } := by
+  unfold setHeldAmount
+  simp only [hx, hfi, hi0, if_false]
+  rfl
+
+/-! ### a composite operation on pool `pl`, step by step: `w0` is where it started, `v` the view reached -/
+
+structure PSt (w0 w : World) (pl : Nat) (v : PView) : Prop where
+  upd : PoolUpd w0 w pl v
+  hok : HoldersOK w0.procs.size v.holders
+  lk : Linked w pl v.holders
+
+theorem PSt.init {w : World} {pl : Nat} {v : PView} (hi : PoolInv w) (hv : poolView w pl = some v) : PSt w w pl v :=
+  ⟨PoolUpd.refl hv, (hi.2 pl v hv).1.toHoldersOK, (hi.2 pl v hv).2⟩
+
+theorem PSt.size {w0 w : World} {pl : Nat} {v : PView} (h : PSt w0 w pl v) : w.procs.size = w0.procs.size := h.upd.size
+
+theorem PSt.viewSame {w0 w w' : World} {pl : Nat} {v : PView} (h : PSt w0 w pl v) (hs : ViewSame w w') : PSt w0 w' pl v :=
+  ⟨h.upd.trans (hs.upd h.upd.view), h.hok, hs.linked h.lk⟩
+
+theorem PSt.same {w0 w w' : World} {pl : Nat} {v : PView} (h : PSt w0 w pl v) (hs : Same w w') : PSt w0 w' pl v :=
+  h.viewSame (ViewSame.of_same hs)
+
+theorem PSt.record {w0 w : World} {pl : Nat} {v : PView} (h : PSt w0 w pl v) (a : Nat) : PSt w0 (recordPool w a) pl v :=
+  h.viewSame (recordPool_viewSame w a)
+
+theorem PSt.setInUse {w0 w : World} {pl : Nat} {v : PView} (h : PSt w0 w pl v) (u : Nat) :
+    PSt w0 (setPoolInUse w pl u) pl { v with inUse := u } := by
+  obtain ⟨hu, hh⟩ := setPoolInUse_upd h.upd.view u
+  exact ⟨h.upd.trans hu, h.hok, fun q => by rw [hh q]; exact h.lk q⟩
+
+theorem PSt.update {w0 w : World} {pl : Nat} {v : PView} (h : PSt w0 w pl v) (hn : w0.procs.size < 2 ^ 31)
+    {p : Pid} (hp : p < w0.procs.size) (amt : Nat) :
+    ∃ h', PSt w0 (poolUpdateRecord w pl p amt) pl { v with holders := h' } ∧
+      amounts (abs h') = amounts (abs v.holders) + amt ∧
+      amountOf (abs h') (p + 1) = amountOf (abs v.holders) (p + 1) + amt ∧
+      (∀ k, k ≠ p + 1 → amountOf (abs h') k = amountOf (abs v.holders) k) := by
+  have hs := h.size
+  obtain ⟨h', hu, ok', lk', hsum, hamt, hoth⟩ := poolUpdateRecord_upd h.upd.view (by rw [hs]; exact h.hok)
+    (by rw [hs]; exact hn) (by rw [hs]; exact hp) h.lk amt
+  exact ⟨h', ⟨h.upd.trans hu, by rw [← hs]; exact ok', lk'⟩, hsum, hamt, hoth⟩
+
+theorem PSt.setHeld {w0 w : World} {pl : Nat} {v : PView} (h : PSt w0 w pl v) {p : Pid}
+    (hk : p + 1 ∈ keys (abs v.holders)) (a : Nat) :
+    ∃ h', PSt w0 (setHeldAmount w pl p a) pl { v with holders := h' } ∧
+      amounts (abs h') + amountOf (abs v.holders) (p + 1) = amounts (abs v.holders) + a ∧
+      amountOf (abs h') (p + 1) = a ∧
+      (∀ k, k ≠ p + 1 → amountOf (abs h') k = amountOf (abs v.holders) k) := by
+  obtain ⟨x, hx, hxv⟩ := poolView_some.1 h.upd.view
+  subst hxv
+  have ok := h.hok
+  simp only [Pool.view] at ok hk ⊢
+  obtain ⟨i, hi, hki⟩ := (HashHeap.mem_keys_abs x.holders (p + 1)).1 hk
+  have hfi := HashHeap.findIndex_of_mem ok.wf hi
+  rw [hki] at hfi
+  have hi0 : i ≠ 0 := by have := hi.1; omega
+  rw [setHeldAmount_present hx hfi hi0]
+  obtain ⟨ok', hsum, hkeys, hamt', hamt, hoth⟩ := withItem_holders ok hi
+    ⟨(x.holders.tag i).item.a, a, (x.holders.tag i).item.c, (x.holders.tag i).item.d⟩
+  rw [hki] at hamt' hamt hoth
+  refine ⟨_, ⟨h.upd.trans (setHolders_upd hx _), ok', ?_⟩, ?_, hamt', hoth⟩
+  · intro q; rw [hkeys]; exact h.lk q
+  · rw [hamt]; simp only at hsum; omega
+
+/-- the operation is complete: the amount in use matches the records again -/
+theorem PSt.close {w0 w : World} {pl : Nat} {v : PView} (h : PSt w0 w pl v) (hi : PoolInv w0)
+    (hsum : v.inUse = amounts (abs v.holders)) (hcap : v.inUse ≤ v.cap) : PoolInv w :=
+  hi.of_upd h.upd ⟨h.hok, hsum, hcap⟩ h.lk
+
+theorem PSt.heldOf {w0 w : World} {pl : Nat} {v : PView} (h : PSt w0 w pl v) (p : Pid) :
+    heldOf w pl p = amountOf (abs v.holders) (p + 1) := by
+  unfold Sim.heldOf; rw [h.upd.view]
+
+/-! ### dropping `.pool pl` from a process's held list -/
+
+theorem removeHeld_mem (w : World) (p q : Pid) (pl pl' : Nat) :
+    HoldRef.pool pl' ∈ ((removeHeld w p (.pool pl)).1.proc q).held ↔
+      HoldRef.pool pl' ∈ (w.proc q).held ∧ ¬ (q = p ∧ pl' = pl) := by
+  rw [removeHeld_proc]
+  by_cases hq : q = p
+  · subst hq
+    simp only [if_true, List.mem_filter, true_and]
+    constructor
+    · rintro ⟨hm, hne⟩
+      refine ⟨hm, fun e => ?_⟩
+      rw [e] at hne; simp at hne
+    · rintro ⟨hm, hne⟩
+      refine ⟨hm, ?_⟩
+      have : HoldRef.pool pl' ≠ HoldRef.pool pl := fun e => hne (by injection e)
+      simpa using this
+  · simp [hq]
+
+theorem removeHeld_viewFacts (w : World) (p : Pid) (h : HoldRef) :
+    (removeHeld w p h).1.procs.size = w.procs.size ∧ ∀ pl, poolView (removeHeld w p h).1 pl = poolView w pl :=
+  ⟨(removeHeld_fp w p h).2.2.2.2.2.2.2.1, fun pl => poolView_of_fp (removeHeld_fp w p h) rfl pl⟩
+
+/-- the holder list lost key `p + 1`, and `p` no longer lists the pool: still linked -/
+theorem linked_drop {w w' : World} {pl : Nat} {h h' : HH} {p : Pid} (lk : Linked w pl h)
+    (hkeys : ∀ k, k ∈ keys (abs h') ↔ k ∈ keys (abs h) ∧ k ≠ p + 1)
+    (hheld : ∀ q, HoldRef.pool pl ∈ (w'.proc q).held ↔ HoldRef.pool pl ∈ (w.proc q).held ∧ q ≠ p) :
+    Linked w' pl h' := by
+  intro q
+  rw [hheld, hkeys, lk q]
+  constructor
+  · rintro ⟨a, b⟩; exact ⟨a, fun e => b (Nat.add_right_cancel e)⟩
+  · rintro ⟨a, b⟩; exact ⟨a, fun e => b (by rw [e])⟩
+
+/-- replace the holder list, then drop the pool from `p`'s held list -/
+theorem PSt.dropKey {w0 w w1 : World} {pl : Nat} {v : PView} (h : PSt w0 w pl v) {h' : HH} {p : Pid}
+    (hu : PoolUpd w w1 pl { v with holders := h' }) (hsame : ∀ q, (w1.proc q).held = (w.proc q).held)
+    (ok' : HoldersOK w0.procs.size h')
+    (hkeys : ∀ k, k ∈ keys (abs h') ↔ k ∈ keys (abs v.holders) ∧ k ≠ p + 1) :
+    PSt w0 (removeHeld w1 p (.pool pl)).1 pl { v with holders := h' } := by
+  obtain ⟨hsz, hvw⟩ := removeHeld_viewFacts w1 p (.pool pl)
+  refine ⟨h.upd.trans (hu.trans ⟨hsz, by rw [hvw]; exact hu.view, fun pl' _ => hvw pl', ?_⟩), ok', ?_⟩
+  · intro q pl' hne
+    rw [removeHeld_mem]
+    constructor
+    · exact fun a => a.1
+    · exact fun a => ⟨a, fun e => hne e.2⟩
+  · refine linked_drop h.lk hkeys ?_
+    intro q
+    rw [removeHeld_mem, hsame q]
+    constructor
+    · rintro ⟨a, b⟩; exact ⟨a, fun e => b ⟨e, rfl⟩⟩
+    · rintro ⟨a, b⟩; exact ⟨a, fun e => b e.1⟩
+
+/-- same, when nothing has to be dropped from the held list because the key was not there -/
+theorem PSt.dropAbsent {w0 w w1 : World} {pl : Nat} {v : PView} (h : PSt w0 w pl v) {h' : HH} {p : Pid}
+    (hu : PoolUpd w w1 pl { v with holders := h' }) (hsame : ∀ q, (w1.proc q).held = (w.proc q).held)
+    (ok' : HoldersOK w0.procs.size h')
+    (hkeys : ∀ k, k ∈ keys (abs h') ↔ k ∈ keys (abs v.holders) ∧ k ≠ p + 1)
+    (habs : p + 1 ∉ keys (abs v.holders)) :
+    PSt w0 w1 pl { v with holders := h' } := by
+  refine ⟨h.upd.trans hu, ok', ?_⟩
+  intro q
+  rw [hsame q, h.lk q, hkeys]
+  constructor
+  · intro a; exact ⟨a, fun e => habs (e ▸ a)⟩
+  · exact fun a => a.1
+
+/-- the holder list of pool `pl` is replaced (the `modify` form of the update) -/
+theorem modifyHolders_upd {w : World} {pl : Nat} {v : PView} (hv : poolView w pl = some v) (h' : HH) :
+    PoolUpd w { w with pools := w.pools.modify pl fun y => { y with holders := h' } } pl { v with holders := h' } := by
+  obtain ⟨x, hx, rfl⟩ := poolView_some.1 hv
+  refine ⟨rfl, ?_, ?_, fun _ _ _ => Iff.rfl⟩
+  · unfold poolView
+    show ((w.pools.modify pl _)[pl]?).map Pool.view = _
+    rw [poolView_modify, if_pos rfl, hx]; rfl
+  · intro pl' hne
+    unfold poolView
+    show ((w.pools.modify pl _)[pl']?).map Pool.view = _
+    rw [poolView_modify, if_neg hne]; rfl
+
 end CimbaModel.Sim
